@@ -239,9 +239,14 @@ Verdict(e) ==
               P_C08_ChildRoot |-> P_C08_ChildRoot(pre, post, dk, o, ob),
               P_C08_Refs |-> P_C08_Refs(pre, post, dk, o, ob),
               P_C08_WhoWrites |-> P_C08_WhoWrites(pre, post, dk, o, ob, ign),
+              P_C17_Renamed |-> (o.op = "create") => P_C17_Renamed(pre, post, dk, o, ob, ign),
+              P_C17_NoInternal |-> (o.op = "create") => P_C17_NoInternal(o, ob),
+              A_moves |-> o.op = "create" /\ o.dr /\ Len(GensOf(pre, o.R)) > 0 /\ Moves(pre, dk, o.R) # {},
+              A_renames |-> HasRenames(pre, dk, o.R),
               P_C12_Excluded |-> P_C12_Excluded(pre, post, o, ob, ign),
               P_C12_Accumulate |-> P_C12_Accumulate(pre, post, o, ob),
               A_unchanged |-> Len(GensOf(pre, o.R)) > 0 /\ Unchanged(dk, sld, o.R, ign),
+              A_ambig |-> AmbiguousRecorded(pre, dk, o.R),
               A_nested |-> Cardinality(Visible(pre, dk, o.R)) > 1,
               A_ign |-> ign # {}]
      ELSE IF o.op \in {"verify", "verifysf", "diff"}
@@ -255,8 +260,11 @@ Verdict(e) ==
               P_C03_Altered |-> P_C03_Altered(pre, dk, o, ob, ign),
               P_C03_Removed |-> P_C03_Removed(pre, dk, o, ob, ign),
               P_C03_Added |-> P_C03_Added(pre, dk, o, ob, ign),
+              P_C17_Altered |-> (o.op = "verify") => P_C17_Altered(pre, dk, o, ob, ign),
+              A_renames |-> HasRenames(pre, dk, o.R),
               P_C03_Quiet |-> P_C03_Quiet(pre, dk, o, ob, ign),
               A_unchanged |-> Len(GensOf(pre, o.R)) > 0 /\ Unchanged(dk, sld, o.R, ign),
+              A_ambig |-> AmbiguousRecorded(pre, dk, o.R),
               A_nested |-> Cardinality(Visible(pre, dk, o.R)) > 1,
               A_ign |-> ign # {}]
      ELSE IF o.op = "verifydh"
